@@ -126,7 +126,7 @@ def run(ctx):
         raise ToolError("TLC (variants): %s" % rv.error[:1000])
     live = [c["steps"][0] for c in parse_case_lines(rv.printed)]
     ru = run_tlc(ctx.sub("universe"), "GenServices", {}, spec="Spec", invariants=["Emit"], workers=4, timeout=900,
-                 printed_cap=400 if q else 4000, seed=ctx.seed)
+                 printed_cap=400 if q else 800, seed=ctx.seed)
     variants = live + [c["steps"][0] for c in parse_case_lines(ru.printed)]
     cpath = ctx.write_cases("locks", [{"case": 1, "variants": variants}])
     obs = ctx.run("locks", cpath)
@@ -178,7 +178,7 @@ def run(ctx):
         other = "%s@%d" % (t, 3 - int(c))       # (variants run on connection 1 only)
         if other in progs:
             pairs.append(sorted([a, other]))
-    cap = 900 if q else 2500
+    cap = 900 if q else 1200
     if len(pairs) > cap:
         pairs = [pairs[i] for i in sorted(random.Random(ctx.seed).sample(range(len(pairs)), cap))]
     G = Tla("{" + ", ".join("{" + ", ".join(tla_value(n) for n in g) + "}" for g in pairs) + "}")
@@ -209,12 +209,12 @@ def run(ctx):
                               {"case": 1, "group": list(g), "programs": {x: progs[x] for x in g}}, engine="locks")
         return dead
 
-    dead2 = compose("compose2", G, 4 if q else 8, 1500 if q else 6000)
+    dead2 = compose("compose2", G, 4 if q else 8, 1500 if q else 3000)
     if dead2:
         confirm_on_real_locks(ctx, sorted(dead2)[0], progs)
     if not q:
         trip = [sorted(x) for x in itertools.combinations(reps, 3)]
-        trip = [trip[i] for i in sorted(random.Random(ctx.seed).sample(range(len(trip)), min(len(trip), 600)))]
+        trip = [trip[i] for i in sorted(random.Random(ctx.seed).sample(range(len(trip)), min(len(trip), 150)))]
         G3 = Tla("{" + ", ".join("{" + ", ".join(tla_value(n) for n in g) + "}" for g in trip) + "}")
         compose("compose3", G3, 8, 2400)
     ctx.cov["evaluations"] += len(pairs)
